@@ -150,10 +150,13 @@ structure Variant where
   getitem : Bool
   /-- `divide` keys its `order` dict by span *value*: equal spans alias and styles are re-ordered. -/
   divideOrder : Bool
+  /-- `align` pads by a *negative* excess when the text stays wider than the width (overflow "ignore", or an
+  ellipsis in 0 cells): `pad_left(negative)` leaves the characters and shifts every span. -/
+  alignNeg : Bool
 deriving Repr, BEq, DecidableEq
 
-def Variant.released : Variant := ⟨true, true, true, true, true⟩
-def Variant.repaired : Variant := ⟨false, false, false, false, false⟩
+def Variant.released : Variant := ⟨true, true, true, true, true, true⟩
+def Variant.repaired : Variant := ⟨false, false, false, false, false, false⟩
 
 namespace Text
 variable {σ : Type}
@@ -508,10 +511,10 @@ def truncate (cw : Char → Nat) (t : Text σ) (maxWidth : Int) (overflow : Opti
   else t
 
 /-- `align(align, width, character)` (text.py:745-763) -/
-def align (cw : Char → Nat) (t : Text σ) (method : AlignMethod) (width : Int) (ch : Char := ' ') : Text σ :=
+def align (v : Variant) (cw : Char → Nat) (t : Text σ) (method : AlignMethod) (width : Int) (ch : Char := ' ') : Text σ :=
   let t1 := t.truncate cw width
   let excess : Int := width - (cellLen cw t1.plain : Int)
-  if excess != 0 then
+  if (if v.alignNeg then excess != 0 else excess > 0) then
     match method with
     | .left => t1.padRight excess ch
     | .center =>
